@@ -107,7 +107,7 @@ impl<'a> StateMachine<'a> {
     //@| ensures r == is_prefix("diff "@, self.line@),  // @C04,C10,C14:a.file.section.starts.at.a.line.that.starts.with.diff
     //@ fn src/handlers/diff_header_diff.rs StateMachine::handle_diff_header_diff_line spec=diff_header.handle_diff_line
     //@after <<<self.current_file_pair = Some((self.minus_file.clone(), self.plus_file.clone()));>>>| let ghost h0 = self.painter.writer.hist(); let ghost ob0 = self.painter.output_buffer@;
-    //@before <<<Ok(true)>>>| assert(/* @C04,C14:the.diff.line.is.passed.on.as.it.is.exactly.when.delta.does.not.write.a.file.header.of.its.own.in.its.place */ self.painter.writer.hist() == (if should_handle_spec(&*self) && !self.config.color_only { h0 } else { h0.push(Ev::Flush(ob0)).push(Ev::Text(frl_spec(self.raw_line@, self.config), true)) }));
+    //@before#2/2 <<<Ok(>>>| assert(/* @C04,C14:the.diff.line.is.passed.on.as.it.is.exactly.when.delta.does.not.write.a.file.header.of.its.own.in.its.place */ self.painter.writer.hist() == (if should_handle_spec(&*self) && !self.config.color_only { h0 } else { h0.push(Ev::Flush(ob0)).push(Ev::Text(frl_spec(self.raw_line@, self.config), true)) }));
     //@before <<<self.handle_pending_line_with_diff_name()?;>>>| assert(/* @C10,C14:hdl.pending.header.is.written.with.the.previous.sections.data */ self.diff_line == old(self).diff_line && self.minus_file == old(self).minus_file && self.plus_file == old(self).plus_file && self.mode_info == old(self).mode_info && self.current_file_pair == old(self).current_file_pair && self.handled_diff_header_header_line_file_pair == old(self).handled_diff_header_header_line_file_pair);
     //@ fn src/handlers/mod.rs StateMachine::handle_additional_cases spec=diff_header.handle_additional_cases
     //@before <<<self.state = to_state;>>>| assert(/* @C10,C14:the.mode.information.of.the.section.before.has.gone.into.that.sections.own.header.before.the.header.of.this.line.is.written */ old(self).state is DiffHeader && !(self.config.file_style.is_omitted && !self.config.color_only) ==> self.mode_info@.len() == 0);
